@@ -40,7 +40,10 @@ Kinds == <<
   \* on the edge of the mouse heuristic: "Mouse" in the name, full key map, no EV line of its own
   E("no-ev-mouse",     "Razer Mouse",                   "/devices/pci0000:00/usb1/1-7/input/input18", Absent, FullKeys),
   E("macro-pad-20",    "Macro Pad",                     "/devices/pci0000:00/usb1/1-8/input/input19", "120013", PadKeys),
-  E("mmo-mouse-macro", "MMO Gaming Device",             "/devices/pci0000:00/usb1/1-9/input/input22", "100013", MmoKeys)
+  E("mmo-mouse-macro", "MMO Gaming Device",             "/devices/pci0000:00/usb1/1-9/input/input22", "100013", MmoKeys),
+  \* a Bluetooth LE keyboard: it reaches the kernel through uhid, so its sysfs path is under /devices/virtual/ but NOT under the
+  \* virtual-input tree /devices/virtual/input/ - a real keyboard that has to be selected
+  E("ble-uhid-keyboard", "BLE Board 5.0",               "/devices/virtual/misc/uhid/0005:046D:B342.0007/input/input25", "120013", FullKeys)
 >>
 KindIds == 1..Len(Kinds)
 
@@ -80,7 +83,7 @@ Keyboardish(e) ==
 \* keyboard-like key maps, buttons, switches") and the repository's example hardware agrees.  For these a wrong class on
 \* either path is a violation of C16 ("only real keyboards ... every other keyboard-like device is"); for the constructed
 \* boundary kinds a difference from Keyboardish stays DRIFT.
-SureKeyboard == {"keyboard", "keyboard-noleds", "virtual-keyboard"}
+SureKeyboard == {"keyboard", "keyboard-noleds", "virtual-keyboard", "ble-uhid-keyboard"}
 SureNotKeyboard == {"gaming-mouse", "power-button", "video-bus", "cros-ec", "virtual-mouse", "mmo-mouse-macro"}
 
 \* exclude patterns and the names they match (glob semantics over the finite universe of names)
